@@ -64,14 +64,20 @@ ExemptDecl == \E j \in 1..(Len(k) - 1) : ExemptPos(k[j]) /\ ~(\E h \in (j+1)..Le
 
 \* errexit / ERR apply to results of: simple commands, function calls, eval, ( ), pipelines.
 Failing(res, sup) == res.cf = "n" /\ res.st # 0 /\ ~sup
+\* what arms the ERR trap.  Ideal (bash): a command that failed.  DEV ErrTrapOnAnyFlow (interp.rs
+\* Pipeline::execute tests only `!result.is_success()`): also an exit / return request carrying a
+\* non-zero status, at every pipeline it passes through.
+FailErr(res, sup) == /\ res.st # 0 /\ ~sup
+                     /\ (res.cf = "n" \/ ("ErrTrapOnAnyFlow" \in DEV /\ res.cf \in {"x", "r"}))
 ApplyErrexit(res, sup) == IF Failing(res, sup) /\ Cur.o.e THEN [res EXCEPT !.cf = "x"] ELSE res
 
 \* Deliver `res` as the result of the command in the top frame (a command boundary):
 \* pops the frame; fires the ERR handler first if armed.
 Deliver(res, sup, o, shNew) ==
   LET cur == shNew[Len(shNew)] IN
-  IF Failing(res, sup) /\ cur.te # 0 /\ (cur.fd = 0 \/ cur.o.E) /\ ~InHandler("herr") /\ ~InHandler("hexit")
-  THEN /\ k' = Append(Append(Pop, HFrame("herr", cur.te, res.st, IF cur.o.e THEN [res EXCEPT !.cf = "x"] ELSE res)),
+  \* the ERR handler does not re-enter itself, but it does fire for failures inside the EXIT handler
+  IF FailErr(res, sup) /\ cur.te # 0 /\ (cur.fd = 0 \/ cur.o.E) /\ ~InHandler("herr")
+  THEN /\ k' = Append(Append(Pop, HFrame("herr", cur.te, res.st, IF cur.o.e /\ res.cf = "n" THEN [res EXCEPT !.cf = "x"] ELSE res)),
                       Frame(P[cur.te].a, FALSE))
        /\ mode' = "eval" /\ r' = res /\ out' = o
        /\ sh' = [shNew EXCEPT ![Len(shNew)].st = res.st]
@@ -80,7 +86,7 @@ Deliver(res, sup, o, shNew) ==
        /\ gh' = [gh EXCEPT !.ex = @ + (IF Failing(res, sup) /\ cur.o.e THEN 1 ELSE 0),
                            !.sup = @ + (IF res.cf = "n" /\ res.st # 0 /\ sup /\ cur.o.e THEN 1 ELSE 0),
                            !.flow = @ + (IF res.cf # "n" THEN 1 ELSE 0),
-                           !.fatal = @ + (IF res.cf = "x" /\ P[Top.i].t \in {"us", "fe"} THEN 1 ELSE 0)]
+                           !.fatal = @ + (IF res.cf = "f" THEN 1 ELSE 0)]
        /\ r' = IF Failing(res, sup) /\ cur.o.e THEN [res EXCEPT !.cf = "x"] ELSE res
        /\ sh' = [shNew EXCEPT ![Len(shNew)].st = res.st]
 
@@ -131,9 +137,12 @@ EvalLeaf ==
                          [] OTHER -> [Cur.o EXCEPT !.E = v] IN
              Deliver(R(0, "n", 0), f.sup, out, SetCur([Cur EXCEPT !.o = o1]))
        [] nd.t = "us"   -> IF Cur.o.u                      \* `: $unset` : fatal under nounset
-                           THEN Deliver(R(127, "x", 0), f.sup, out, sh)
+                           THEN Deliver(R(127, "f", 0), f.sup, out, sh)
                            ELSE Deliver(R(0, "n", 0), f.sup, out, sh)
-       [] nd.t = "fe"   -> Deliver(R(127, "x", 0), f.sup, out, sh)   \* `: ${unset:?}`
+       [] nd.t = "fe"   -> Deliver(R(127, "f", 0), f.sup, out, sh)   \* `: ${unset:?}`
+             \* cf = "f": a fatal expansion error.  It travels like an exit request (in the code: a Rust Err
+             \* propagated with `?`) up to the nearest function call / eval / subshell / top level, where it
+             \* becomes an ordinary exit ("x").  The distinction only matters for DEV ErrTrapOnAnyFlow.
              \* The status of a fatal expansion error is only required to be non-zero (POSIX); bash itself
              \* uses 127 or 1 depending on errexit and on the kind of subshell.  The model says 127 and the
              \* driver identifies 1 and 127 when comparing programs whose run counted gh.fatal > 0.
@@ -201,7 +210,7 @@ LeaveLoop(res) == Pass(res, SetCur([Cur EXCEPT !.ld = @ - 1, !.st = res.st]))
 
 \* what a loop frame does with the result of its body (or of its condition prefix)
 LoopFlow(f, again) ==
-  CASE r.cf \in {"r", "x", "X"} -> LeaveLoop(r)
+  CASE r.cf \in {"r", "x", "X", "f"} -> LeaveLoop(r)
     [] r.cf = "b" -> LeaveLoop(IF r.lv = 0 THEN R(r.st, "n", 0) ELSE R(r.st, "b", r.lv - 1))
     [] r.cf = "c" /\ r.lv > 0 -> LeaveLoop(R(r.st, "c", r.lv - 1))
     [] OTHER -> again
@@ -232,7 +241,7 @@ RetLoop ==
   /\ mode = "ret" /\ k # <<>> /\ f.kind = "node" /\ nd.t \in {"while", "for", "afor", "case"}
   /\ CASE nd.t = "while" ->
             IF f.ph = 1            \* the condition prefix returned
-            THEN CASE r.cf \in {"r", "x", "X"} -> LeaveLoop(r)
+            THEN CASE r.cf \in {"r", "x", "X", "f"} -> LeaveLoop(r)
                    \* bash (execute_while_or_until): the test "returns" the status carried by the flow
                    \* (0 for break/continue, 1 under `!`).  If that status says "stop" the loop ends
                    \* normally with the pending flow decremented and the last body status ...
@@ -263,11 +272,14 @@ RetBoundary ==
   /\ mode = "ret" /\ k # <<>> /\ f.kind = "node" /\ nd.t \in {"fn", "eval", "sub", "cs", "pipe"}
   /\ CASE nd.t = "fn" ->
             LET sh1 == SetCur([Cur EXCEPT !.fd = @ - 1, !.ld = f.last]) IN
-            IF r.cf \in {"x", "X"} THEN Pass(r, sh1)
+            IF r.cf \in {"x", "f"} /\ "ErrTrapOnAnyFlow" \in DEV THEN Deliver(R(r.st, "x", 0), f.sup, out, sh1)
+            ELSE IF r.cf \in {"x", "X", "f"} THEN Pass(R(r.st, IF r.cf = "X" THEN "X" ELSE "x", 0), sh1)
             ELSE IF r.cf \in {"b", "c"}     \* cannot happen in the ideal model (ld = 0 inside)
                  THEN Deliver(R(99, "n", 0), f.sup, out, sh1)
                  ELSE Deliver(R(r.st, "n", 0), f.sup, out, sh1)
-       [] nd.t = "eval" -> IF r.cf = "n" THEN Deliver(r, f.sup, out, sh) ELSE Pass(r, sh)
+       [] nd.t = "eval" -> IF r.cf = "n" \/ (r.cf \in {"x", "r", "f"} /\ "ErrTrapOnAnyFlow" \in DEV)
+                           THEN Deliver(IF r.cf = "f" THEN R(r.st, "x", 0) ELSE r, f.sup, out, sh)
+                           ELSE Pass(IF r.cf = "f" THEN R(r.st, "x", 0) ELSE r, sh)
        [] nd.t \in {"sub", "cs"} ->
             IF Cur.tx # 0 /\ ~InHandler("hexit") /\ r.cf # "X" /\ ~("SubshellExitTrapSkipped" \in DEV)
             THEN \* the subshell's own EXIT trap (set inside it) runs as it ends
@@ -287,10 +299,13 @@ RetHandler ==
   LET f == Top IN
   /\ mode = "ret" /\ k # <<>> /\ f.kind \in {"herr", "hexit"}
   /\ IF f.kind = "herr"
-     THEN IF r.cf \in {"x", "X"} THEN Pass(r, sh)
+     THEN IF r.cf \in {"x", "X", "f"}
+          THEN Pass(r, IF "ErrTrapRearmedOnExit" \in DEV THEN sh   \* brush: guard dropped when the handler returns
+                       ELSE SetCur([Cur EXCEPT !.te = 0]))   \* exit inside the ERR handler: what follows (the EXIT
+                                                         \* handler) still runs "inside" it, so ERR cannot fire again
           ELSE Pass(f.pend, SetCur([Cur EXCEPT !.st = f.last]))       \* $? restored
      ELSE \* hexit: `exit m` inside the handler replaces the status
-          LET st == IF r.cf = "x" /\ ~("ExitInExitTrapIgnored" \in DEV) THEN r.st ELSE f.last IN
+          LET st == IF r.cf \in {"x", "f"} /\ ~("ExitInExitTrapIgnored" \in DEV) THEN r.st ELSE f.last IN
           Pass(R(st, f.pend.cf, 0), SetCur([Cur EXCEPT !.st = st]))
   /\ UNCHANGED <<pi, phase, xruns, code>>
 
@@ -314,7 +329,7 @@ Spec == Init /\ [][Next]_vars /\ WF_vars(Next)
 
 \* ------------------------------------------------------------------ properties of the model
 LevelsOK == r.lv >= 0 /\ \A i \in 1..Len(sh) : sh[i].ld >= 0 /\ sh[i].fd >= 0
-DoneClean == phase = "done" => (k = <<>> /\ Len(sh) = 1 /\ r.cf \in {"n", "x", "X"})
+DoneClean == phase = "done" => (k = <<>> /\ Len(sh) = 1 /\ r.cf \in {"n", "x", "X", "f"})
 \* a function boundary never passes break/continue; a subshell boundary passes only plain statuses
 BoundaryOK == (mode = "ret" /\ k # <<>> /\ Top.kind = "node") =>
                  /\ (P[Top.i].t = "fn" /\ DEV = {} => r.cf \notin {"b", "c"})
